@@ -933,7 +933,9 @@ pub fn conformance(thorough: bool, threads: usize, name: &'static str) -> JobRes
                     continue;
                 }
                 let expected = w.observations();
-                match replay_on_binary(&cfg, &history) {
+                let expect_req = expected.iter().filter(|l| l.starts_with("req ")).count();
+                let expect_resp = expected.iter().filter(|l| l.starts_with("resp ")).count();
+                match replay_on_binary(&cfg, &history, expect_req, expect_resp) {
                     Ok(actual) => {
                         let exp_req: Vec<String> = expected.iter().filter(|l| l.starts_with("req ")).map(|l| normalise_long_numbers(l)).collect();
                         let act_req: Vec<String> = actual.iter().filter(|l| l.starts_with("req ")).map(|l| normalise_long_numbers(l)).collect();
@@ -1021,7 +1023,25 @@ fn normalise_long_numbers(s: &str) -> String {
 }
 
 /// Drive the real binary through `history`; returns its observation log in the format of W::observations().
-fn replay_on_binary(cfg: &crate::engine_w::WCfg, history: &[String]) -> Result<Vec<String>, String> {
+fn drain_responses(p: &mut Proc, ids: &[(Value, String)], obs: &mut Vec<String>) {
+    while let Ok(v) = p.rx.try_recv() {
+        if let Some((_, name)) = ids.iter().find(|(id, _)| v.get("id") == Some(id)) {
+            let r = &v["result"];
+            let rs = match r["result"].as_str() {
+                Some("continue") => match r.get("payload").and_then(|x| x.as_str()) {
+                    Some(pl) => format!("continue:{}", pl),
+                    None => "continue".to_string(),
+                },
+                Some("fail") => format!("fail:{}", r["failure_message"].as_str().unwrap_or("")),
+                Some("resolve") => format!("resolve:{}", r["payment_key"].as_str().unwrap_or("")),
+                _ => format!("?{}", v),
+            };
+            obs.push(format!("resp {} {}", name, rs));
+        }
+    }
+}
+
+fn replay_on_binary(cfg: &crate::engine_w::WCfg, history: &[String], expect_req: usize, expect_resp: usize) -> Result<Vec<String>, String> {
     use crate::engine_w::{normalise_stamps, resp_string};
     let mut sim = Sim::new(common::local_pubkey().to_string());
     sim.height = cfg.start_height;
@@ -1088,37 +1108,22 @@ fn replay_on_binary(cfg: &crate::engine_w::WCfg, history: &[String]) -> Result<V
         } else {
             return Err(format!("event {} is not replayable", l));
         }
-        // give the plugin the time to react: wait until its reaction stops changing
-        let mut last = (0usize, 0usize);
-        let mut stable = 0;
-        let t0 = Instant::now();
-        while stable < 3 && t0.elapsed() < Duration::from_secs(5) {
-            std::thread::sleep(Duration::from_millis(8));
-            let n_req = p.node.sim.lock().unwrap().new_requests.len();
-            while let Ok(v) = p.rx.try_recv() {
-                if let Some((_, name)) = ids.iter().find(|(id, _)| v.get("id") == Some(id)) {
-                    let r = &v["result"];
-                    let rs = match r["result"].as_str() {
-                        Some("continue") => match r.get("payload").and_then(|x| x.as_str()) {
-                            Some(pl) => format!("continue:{}", pl),
-                            None => "continue".to_string(),
-                        },
-                        Some("fail") => format!("fail:{}", r["failure_message"].as_str().unwrap_or("")),
-                        Some("resolve") => format!("resolve:{}", r["payment_key"].as_str().unwrap_or("")),
-                        _ => format!("?{}", v),
-                    };
-                    obs.push(format!("resp {} {}", name, rs));
-                }
-            }
-            let cur = (n_req, obs.len());
-            if cur == last {
-                stable += 1;
-            } else {
-                stable = 0;
-                last = cur;
-            }
-        }
+        // collect whatever the plugin has answered so far (the next scripted step waits for what it needs)
+        drain_responses(&mut p, &ids, &mut obs);
     }
+    // the in-process run tells how many requests / responses to expect: wait for them (or give up after 10 s; a
+    // short grace period afterwards catches anything the binary does in excess)
+    let t0 = Instant::now();
+    loop {
+        drain_responses(&mut p, &ids, &mut obs);
+        let n_req = p.node.sim.lock().unwrap().new_requests.iter().filter(|r| r.method != Method::Getinfo).count();
+        if (n_req >= expect_req && obs.len() >= expect_resp) || t0.elapsed() > Duration::from_secs(10) {
+            break;
+        }
+        std::thread::sleep(Duration::from_millis(5));
+    }
+    std::thread::sleep(Duration::from_millis(40));
+    drain_responses(&mut p, &ids, &mut obs);
     let reqs = p.node.sim.lock().unwrap().take_new_requests();
     let mut out: Vec<String> = reqs
         .iter()
